@@ -11,6 +11,7 @@ CONSTANTS
   MaxPeer = 0
   MaxPush = 0
   Faults = {}
+  MaxFaults = 1
   RespShapes <- NoShapes
   Abandon = FALSE
   MaxArr = 3
